@@ -798,7 +798,7 @@ MANIFEST = {
     "text": "Fault enumeration: the real DocumentSetPreparator/Downloader/Decompressor/net.download/io.decompress/offset-table code runs on real files against a "
     "scripted http.server on loopback. Enumerated completely: the initial-state grid (7 document x 5 archive x 2 .tmp x 3 offset-table states x declared/undeclared "
     "sizes x 8 archive formats = 6720 states; thorough also offline / no base-url / bundled), one HTTP fault (a server that stalls in the middle of the body included; the 240 s read timeout is substituted by 0.25 s) repeated 0..12 times then healthy or for ever "
-    "(retry budget crossed both ways), the archive cut at every byte position, the stale-offset-table x format x member-mtime matrix with 50k-100k-line corpora (through the data cache and for document sets bundled with the track), and a "
+    "(retry budget crossed both ways), the archive cut at every byte position, the stale-offset-table x format x member-mtime matrix with 50k-100k-line corpora (through the data cache and for document sets bundled with the track; missing or partial document file; LF and CRLF corpora), and a "
     "failpoint grid of an earlier run killed (subprocess, os._exit) after k bytes of download / decompression / offset-table writing; plus seeded random combinations "
     "with follow-up runs. Through the track-preparator entry the corpus under test has sibling document sets (one bundled before it, one cached after it) and sibling corpora, all of which must end up prepared. A post-state oracle checks existence, declared size, content against the generator's original, every offset entry and skip_lines() on an "
     "MmapSource against line-by-line reading, and the download target under its final name after every outcome. Holds for the enumerated alphabet and bounds, not beyond.",
